@@ -138,8 +138,8 @@ Proof. exact (local_label_irrelevant_any_setting sp f ov arg a b c l). Qed.
 Print Assumptions C04_local_label_irrelevant_any_setting.
 
 (* 1'. the exact scope of the complement clause: under every setting it holds for every candidate that is not a pre-release;
-       for a pre-release candidate with the gate closed on both specifiers it fails (both answer False).
-       The closure/cover/intersection clauses share this scope: they are statements about prereleases=True (as the quantifier "as in C03" says). *)
+       for a pre-release candidate with the gate closed on both specifiers it fails (both answer False; that second theorem is DEFINITIONAL:
+       the gate of the model's contains() applied twice). *)
 Theorem C04_ne_complement_non_prerelease t f ov arg a c :
   interp (OEq @ t) = Some f -> form_ok OEq f -> Version a = Some c -> is_prerelease c = false ->
   exists b, contains (OEq @ t) ov arg a = Ans b /\ contains (ONe @ t) ov arg a = Ans (negb b).
@@ -150,6 +150,45 @@ Theorem C04_ne_complement_fails_when_gated t ov arg a c : Version a = Some c -> 
   contains (OEq @ t) ov arg a = Ans false /\ contains (ONe @ t) ov arg a = Ans false.
 Proof. exact (ne_complement_fails_when_gated t ov arg a c). Qed.
 Print Assumptions C04_ne_complement_fails_when_gated.
+
+(* 2''/5''/6''. closure, cover, inside, never-match and the ~= intersection under EVERY setting (object setting ov, call argument arg), for
+   candidates that pass the gate: not a pre-release, or pre-releases enabled independently of the specifier (argument True, or no argument
+   and object setting True).  For other candidates these laws fail (e.g. >=1.0 holds 1.0 but not 1.1a1 by default). *)
+Theorem C04_gate_passed_is_enabled sp ov arg a c : Version a = Some c -> passes ov arg c -> contains sp ov arg a = has sp a.
+Proof. exact (contains_gate_passed sp ov arg a c). Qed.
+Print Assumptions C04_gate_passed_is_enabled.
+Theorem C04_ge_upward_closed_any_setting t V ov arg a b c c' : Version t = Some V -> Py.local V = None ->
+  Version a = Some c -> Version b = Some c' -> passes ov arg c -> passes ov arg c' ->
+  contains (OGe @ t) ov arg a = Ans true -> vcmp (drop_local c) (drop_local c') <> Gt -> contains (OGe @ t) ov arg b = Ans true.
+Proof. intros PV NL. exact (ge_upward_any_setting t V ov arg PV NL a b c c'). Qed.
+Print Assumptions C04_ge_upward_closed_any_setting.
+Theorem C04_le_downward_closed_any_setting t V ov arg a b c c' : Version t = Some V -> Py.local V = None ->
+  Version a = Some c -> Version b = Some c' -> passes ov arg c -> passes ov arg c' ->
+  contains (OLe @ t) ov arg a = Ans true -> vcmp (drop_local c') (drop_local c) <> Gt -> contains (OLe @ t) ov arg b = Ans true.
+Proof. intros PV NL. exact (le_downward_any_setting t V ov arg PV NL a b c c'). Qed.
+Print Assumptions C04_le_downward_closed_any_setting.
+Theorem C04_ge_le_cover_any_setting t V ov arg a c : Version t = Some V -> Py.local V = None -> Version a = Some c -> passes ov arg c ->
+  exists b1 b2, contains (OGe @ t) ov arg a = Ans b1 /\ contains (OLe @ t) ov arg a = Ans b2 /\ b1 || b2 = true.
+Proof. intros PV NL. exact (cover_any_setting t V ov arg PV NL a c). Qed.
+Print Assumptions C04_ge_le_cover_any_setting.
+Theorem C04_lt_inside_le_any_setting t V ov arg a c : Version t = Some V -> Py.local V = None -> Version a = Some c -> passes ov arg c ->
+  contains (OLt @ t) ov arg a = Ans true -> contains (OLe @ t) ov arg a = Ans true.
+Proof. intros PV NL. exact (lt_inside_le_any_setting t V ov arg PV NL a c). Qed.
+Print Assumptions C04_lt_inside_le_any_setting.
+Theorem C04_gt_inside_ge_any_setting t V ov arg a c : Version t = Some V -> Py.local V = None -> Version a = Some c -> passes ov arg c ->
+  contains (OGt @ t) ov arg a = Ans true -> contains (OGe @ t) ov arg a = Ans true.
+Proof. intros PV NL. exact (gt_inside_ge_any_setting t V ov arg PV NL a c). Qed.
+Print Assumptions C04_gt_inside_ge_any_setting.
+(* never matching V or a local version of V needs no gate hypothesis at all *)
+Theorem C04_strict_never_match_any_setting t V ov arg a c : Version t = Some V -> Py.local V = None -> Version a = Some c ->
+  vcmp (drop_local c) V = Eq -> contains (OLt @ t) ov arg a = Ans false /\ contains (OGt @ t) ov arg a = Ans false.
+Proof. intros PV NL. exact (strict_never_match_any_setting t V ov arg PV NL a c). Qed.
+Print Assumptions C04_strict_never_match_any_setting.
+Theorem C04_compat_is_intersection_any_setting t V ov arg a c : Version t = Some V -> Py.local V = None -> (2 <= length (Py.release V))%nat ->
+  Version a = Some c -> passes ov arg c ->
+  exists b1 b2, contains (OGe @ t) ov arg a = Ans b1 /\ contains (OEq @ (prefix_text V)) ov arg a = Ans b2 /\ contains (OCompat @ t) ov arg a = Ans (b1 && b2).
+Proof. intros PV NL. exact (compat_intersection_any_setting t V ov arg PV NL a c). Qed.
+Print Assumptions C04_compat_is_intersection_any_setting.
 
 Example C04_lifted_nonvacuous : lift_check = true.
 Proof. vm_compute. reflexivity. Qed.
